@@ -1,8 +1,8 @@
 use proc_macro2::{Span, TokenStream};
 use quote::{quote, quote_spanned};
 use syn::{
-    parse_quote, punctuated::Punctuated, spanned::Spanned, Data, DeriveInput, Fields, GenericParam,
-    Generics, Path, Token,
+    ext::IdentExt, parse_quote, punctuated::Punctuated, spanned::Spanned, Data, DeriveInput,
+    Fields, GenericParam, Generics, Path, Token,
 };
 
 pub fn do_derive_schema(input: DeriveInput) -> syn::Result<TokenStream> {
@@ -22,7 +22,7 @@ pub fn do_derive_schema(input: DeriveInput) -> syn::Result<TokenStream> {
     };
     let (impl_generics, ty_generics, where_clause) = generics.split_for_impl();
 
-    let ty = generator.generate_type(&input.data, span, name.to_string())?;
+    let ty = generator.generate_type(&input.data, span, name.unraw().to_string())?;
 
     let postcard_schema = &generator.postcard_schema;
     let expanded = quote! {
@@ -93,7 +93,10 @@ impl Generator {
             }
             Data::Enum(data) => {
                 let variants = data.variants.iter().map(|v| {
-                    let (name, data) = (v.ident.to_string(), self.generate_variants(&v.fields));
+                    let (name, data) = (
+                        v.ident.unraw().to_string(),
+                        self.generate_variants(&v.fields),
+                    );
                     quote! { #postcard_schema::schema::Variant { name: #name, data: #data } }
                 });
 
@@ -117,7 +120,7 @@ impl Generator {
             syn::Fields::Named(fields) => {
                 let fields = fields.named.iter().map(|f| {
                     let ty = &f.ty;
-                    let name = f.ident.as_ref().unwrap().to_string();
+                    let name = f.ident.as_ref().unwrap().unraw().to_string();
                     quote_spanned!(f.span() => &#postcard_schema::schema::NamedField { name: #name, ty: <#ty as #postcard_schema::Schema>::SCHEMA })
                 });
                 quote! { #postcard_schema::schema::Data::Struct(&[
@@ -153,7 +156,7 @@ impl Generator {
             syn::Fields::Named(fields) => {
                 let fields = fields.named.iter().map(|f| {
                     let ty = &f.ty;
-                    let name = f.ident.as_ref().unwrap().to_string();
+                    let name = f.ident.as_ref().unwrap().unraw().to_string();
                     quote_spanned!(f.span() => &#postcard_schema::schema::NamedField { name: #name, ty: <#ty as #postcard_schema::Schema>::SCHEMA })
                 });
                 quote! { #postcard_schema::schema::Data::Struct(&[
